@@ -8,6 +8,7 @@ import BV.C19.Model
 import BV.C19.Session
 import BV.C19.Lemmas
 import BV.C19.Stream
+import BV.C19.Nonce
 import BV.C19.SessionLemmas
 import BV.C19.EllswiftLemmas
 import BV.C19.EllswiftExample
@@ -456,6 +457,30 @@ no root of x³ + 7), and the theorem applies to a concrete encoding there -/
 example : Ellswift.xswiftec Ellswift.Lemmas.ops13 1 2 = some 7 :=
   xswiftec_inv_correct Ellswift.Lemmas.lawful13 1 7 2 0 (by decide) Ellswift.Lemmas.hyps13.1
     Ellswift.Lemmas.hyps13.2.1 Ellswift.Lemmas.hyps13.2.2 ⟨5, by decide⟩ (by decide)
+
+/-! ### nonce discipline of the packet cipher (chacha.go: `crypt` builds the 12-byte nonce from
+`packetCtr % rekeyInterval` ‖ `packetCtr / rekeyInterval`; the key only changes when the second
+component does) -/
+
+/-- two packets protected under the same key (same key epoch) never share a nonce — for every
+counter value, with no bound -/
+theorem nonce_unique_within_epoch {c1 c2 : Nat} (he : c1 / 224 = c2 / 224)
+    (h : fspNonce c1 = fspNonce c2) : c1 = c2 :=
+  Nonce.nonce_unique_within_epoch he h
+
+/-- while the epoch number fits its 8-byte field, the packet nonce determines the packet counter:
+no nonce value is ever produced twice by one direction of a session -/
+theorem packet_nonce_injective {c1 c2 : Nat} (h1 : c1 < 224 * 2 ^ 64) (h2 : c2 < 224 * 2 ^ 64)
+    (h : fspNonce c1 = fspNonce c2) : c1 = c2 :=
+  Nonce.fspNonce_injective h1 h2 h
+
+/-- the nonce under which the next key is derived (ff ff ff ff ‖ epoch) is never a packet nonce, so
+the rekeying key stream is never also used to protect a packet -/
+theorem packet_nonce_ne_rekey_nonce (c c' : Nat) : fspNonce c ≠ fspRekeyNonce c' :=
+  Nonce.fspNonce_ne_rekeyNonce c c'
+
+/-- the bound of `packet_nonce_injective` is sharp: one epoch-field wrap later the nonce repeats -/
+example : fspNonce 0 = fspNonce (224 * 2 ^ 64) := by decide
 
 /-- hypotheses of the theorems above are satisfiable -/
 example : ∃ P : Prims, ∀ k m, (P.mac k m).length = 16 := ⟨chachaPoly, chachaPoly_tag_length⟩
